@@ -35,7 +35,7 @@ ZOO = [VInf, VNegInf, VNan, VFloat(200000), VInt(2000), VInt(-2000), VInt(3000),
        VObj("MyList", ["list"], [VList([VInt(1)])]),
        VObj("MyDict", ["dict"], [VDict([KV(VStr([97]), VInt(1))])]),
        VObj("OrderedDict", ["dict"], [VDict([KV(VStr([97]), VInt(1))])])]
-ZOO_KEYS = [VNan, VObj("tuple12", [], []), VObj("frozenset1", [], []), VInt(2000), VNone,
+ZOO_KEYS = [VNan, VObj("tuple12", [], []), VObj("frozenset1", [], []), VInt(2000), VNone, {"k": "ellipsis"},
             VObj("object_a", [], []), VBool(True), VFloat(50), VBytes([97]),
             VObj("frozenset_mixed", [], []), VObj("uncopyable", [], [])]
 # members that can be neither copied nor pickled, or whose parts cannot be ordered: wherever a
